@@ -119,6 +119,10 @@ void guard_install() {
     setitimer(ITIMER_REAL, &it, 0);
 }
 
+// coverage flavour only: workers leave through _exit, so the gcov counters are flushed by hand (weak: absent elsewhere)
+extern "C" void __gcov_dump(void) __attribute__((weak));
+static void cov_flush() { if (__gcov_dump) __gcov_dump(); }
+
 // ---------------------------------------------------------------- registry
 static std::vector<Check> &registry() { static std::vector<Check> r; return r; }
 void register_check(const Check &c) { registry().push_back(c); }
@@ -248,7 +252,7 @@ int main(int argc, char **argv) {
             g_progress_ptr = &ctx.progress; guard_install();
             chk->run(ctx);
             write_result(ctx, fmt("%s.w%d", base.c_str(), w));
-            fflush(stdout); _exit(0);
+            fflush(stdout); cov_flush(); _exit(0);
         }
         pids.push_back(p);
     }
